@@ -38,7 +38,7 @@ func (s *c02State) legs() []c02Leg {
 func c02OnlyRequestLevel(ds []c02Defect) bool {
 	for _, d := range ds {
 		switch d.Name {
-		case "scope_unknown", "scope_other", "param_missing", "nonce_reused",
+		case "scope_unknown", "scope_other", "scope_near_miss", "param_missing", "nonce_reused",
 			"code_wrong", "code_reused", "token_client_id_wrong", "verifier_wrong", "verifier_missing", "state_wrong":
 		default:
 			return false
@@ -211,6 +211,9 @@ func (s *c02State) mainS2S() func() c02TokenResult {
 	r, rd, realised := s.planAndRender(leg, nonce, c.Defects, s.scope().Name, clientID)
 	defects = append(defects, realised...)
 	body := s.s2sBody(r, rd)
+	if body.Scope != nil {
+		s.x.Classf("scope-string:%s", c02ScopeClass(c, *body.Scope))
+	}
 	send := func() c02TokenResult { return s.callToken(body, c.DPoP) }
 	res := send()
 	for _, d := range defects {
@@ -307,6 +310,7 @@ func (s *c02State) mainCode() func() c02TokenResult {
 	// skip: the client goes to the token endpoint INSTEAD of presenting (all, or the remaining) presentations, with a
 	// "code" built from strings it legitimately knows (the verifier's state, its nonce) and other stores' key prefixes
 	var skip *c02Defect
+	authScope, authScopeDefect := s.scope().Name, ""
 	for _, d := range c.Defects {
 		switch d.Name {
 		case "code_wrong", "code_reused", "token_client_id_wrong", "verifier_wrong", "verifier_missing", "code_path_variant":
@@ -314,6 +318,14 @@ func (s *c02State) mainCode() func() c02TokenResult {
 		case "code_instead_of_presentation":
 			d := d
 			skip = &d
+		case "scope_unknown", "scope_near_miss":
+			// the authorization request names a scope STRING for which nothing is configured
+			d := d
+			if d.Name == "scope_unknown" {
+				authScope, authScopeDefect = []string{"no-such-scope", ""}[d.Arg%2], d.Name
+			} else if v, ok := c02ScopeNearMiss(c, d.Arg); ok {
+				authScope, authScopeDefect = v, d.Name
+			}
 		default:
 			presDefects = append(presDefects, d)
 		}
@@ -329,11 +341,31 @@ func (s *c02State) mainCode() func() c02TokenResult {
 	}
 	x.Classf("code:legs=%d", len(legs))
 
-	cs, err := s.authorize(s.scope().Name, clientID, "main")
-	if err != nil {
+	cs, err := s.authorize(authScope, clientID, "main")
+	var defects []string
+	if authScopeDefect != "" {
+		x.Class("defect:" + authScopeDefect)
+		x.Classf("scope-string:%s", c02ScopeClass(c, authScope))
+		x.NonTrivial()
+		if err != nil {
+			// refused where it belongs; nothing to redeem afterwards
+			x.Class("outcome:authorize:rejected")
+			var oe oauth.OAuth2Error
+			if asOAuth(err, &oe) {
+				x.Class("reject-code:" + string(oe.Code))
+			}
+			x.Classf("ndefects:%d", 1)
+			body := HandleTokenRequestFormdataRequestBody{GrantType: oauth.AuthorizationCodeGrantType, Code: c02Ptr("made-up-code"), ClientId: c02Ptr(clientID), CodeVerifier: c02Ptr("v")}
+			send := func() c02TokenResult { return s.callToken(body, c.DPoP) }
+			s.judge("main", send(), []string{"no_code", authScopeDefect})
+			return send
+		}
+		// the flow goes on for a scope string nobody configured: judged when (if) the token comes out
+		defects = append(defects, authScopeDefect)
+		x.Class("outcome:authorize:accepted-unconfigured-scope")
+	} else if err != nil {
 		x.Fatalf("authorize for a configured scope failed: %s", c02ErrString(err))
 	}
-	var defects []string
 	var reqs []*c02Request
 	var rds []c02Rendered
 	code := ""
@@ -404,7 +436,7 @@ func (s *c02State) mainCode() func() c02TokenResult {
 		reqs, rds = append(reqs, r), append(rds, rd)
 		redirect, err := s.directPost(state, rd)
 		strict, soft := c02Strict(defects)
-		legDefective := i == defLeg && len(strict) > 0
+		legDefective := (i == defLeg || authScopeDefect != "") && len(strict) > 0
 		if err != nil {
 			if i == defLeg && soft && len(strict) == 0 {
 				x.Class("outcome:leg:no-expectation:rejected")
@@ -525,9 +557,41 @@ func (s *c02State) mainCode() func() c02TokenResult {
 	res := send()
 	s.judge("main", res, defects)
 	if res.Token != nil {
-		s.record(res, clientID, s.scope().Name, reqs, rds)
+		strict, _ := c02Strict(defects)
+		s.record(res, clientID, authScope, reqs, rds).Tainted = len(strict) > 0
 	}
 	return send
+}
+
+// c02ScopeClass names the shape of a requested scope string relative to the policy keys (evidence only).
+func c02ScopeClass(c c02Case, v string) string {
+	n := c.Policy[c.Scope].Name
+	for _, sc := range c.Policy {
+		if sc.Name == v {
+			if sc.Combo {
+				return "configured-key-with-blank"
+			}
+			if v == n {
+				return "configured"
+			}
+			return "other-configured"
+		}
+	}
+	switch {
+	case v == "":
+		return "empty"
+	case strings.TrimSpace(v) == n:
+		return "configured+surrounding-whitespace"
+	case len(strings.Fields(v)) > 1 && strings.Fields(v)[0] == n:
+		return "configured-first+more"
+	case len(strings.Fields(v)) > 1 && strings.Contains(" "+strings.Join(strings.Fields(v), " ")+" ", " "+n+" "):
+		return "configured-later+more"
+	case strings.EqualFold(v, n):
+		return "case-variant"
+	case strings.HasPrefix(n, v) || strings.HasPrefix(v, n):
+		return "prefix-or-suffix-near-miss"
+	}
+	return "unrelated"
 }
 
 // ---------------------------------------------------------------------------------------------------------------------
@@ -649,6 +713,35 @@ func c02Run(x *h.Ctx, c c02Case) {
 		for _, d := range l.PD.Descs {
 			for _, f := range d.Fields {
 				ids = append(ids, f.ID)
+			}
+		}
+	}
+	for _, sc := range c.Policy {
+		if sc.Combo {
+			x.Class("policy:has-key-with-blank")
+		}
+	}
+	for _, l := range s.legs() {
+		for _, d := range l.PD.Descs {
+			for _, f := range d.Fields {
+				if !f.Optional {
+					continue
+				}
+				kind := "plain"
+				switch {
+				case c02StdMembers[f.ID]:
+					kind = "response-member"
+				case c02In(c02OtherStdIDs, f.ID):
+					kind = "other-rfc7662"
+				}
+				cred := f.Cred
+				if cred == "" {
+					cred = "value:" + f.Mode
+				}
+				x.Classf("optional-field:%s:credential-%s", kind, cred)
+				if c02StdMembers[f.ID] && f.valueless() {
+					x.Class("optional-null-claim-id:" + f.ID)
+				}
 			}
 		}
 	}
